@@ -109,6 +109,8 @@ def build_plan(choice: Choice, tier: str, family: str):
         p["quota"] = math.inf
     # join_timeout (C03 only): a retiring worker that is slow to exit must still be replaced
     p["join_timeout"] = 1 if d(6 if family == "multi" else 10, "join_timeout") == 5 else None
+    # how many timeouts may expire although another task could still run (a slow machine): 0-3
+    p["early_timeouts"] = [0, 0, 1, 3][d(4, "early.timeouts")] if p["join_timeout"] else 0
     # a factory whose create() is slow (yield / defer): replacements appear late
     p["create_pause"] = [0, 0, 0, 1, 2][d(5, "create.pause")] if p["factory"] else 0
     if family == "single":
@@ -797,6 +799,7 @@ class PoolSpec:
                    granularity=plan["granularity"], anchors=self._anchors)
         if trace:
             k.trace_events = []
+        k.early_timeouts_left = plan.get("early_timeouts", 0)
         k.run(lambda: scenario(k, plan, obs))
 
 
